@@ -124,3 +124,124 @@ impl Vm {
     }
 }
 
+
+/// Native recursion depth counters (thread-local).
+///
+/// Every natively recursive function on the reader / compiler / heap / comparison / printer
+/// paths enters a guard at its top. A guard counts the frames that are live on this thread:
+/// per function (`site`), per cluster of mutually recursive functions (`group`) and over all
+/// instrumented functions; `max` is the highest value of `cur` since the last `reset`.
+pub mod depth {
+    use std::cell::RefCell;
+
+    #[derive(Debug, Default, Clone)]
+    pub struct Counter {
+        pub name: &'static str,
+        pub cur: usize,
+        pub max: usize,
+    }
+
+    impl Counter {
+        fn up(&mut self) {
+            self.cur += 1;
+            if self.cur > self.max {
+                self.max = self.cur;
+            }
+        }
+    }
+
+    #[derive(Debug, Default, Clone)]
+    pub struct Counters {
+        pub sites: Vec<Counter>,
+        pub groups: Vec<Counter>,
+        pub total: Counter,
+    }
+
+    thread_local! {
+        static COUNTERS: RefCell<Counters> = RefCell::new(Counters::default());
+    }
+
+    fn index(counters: &mut Vec<Counter>, name: &'static str) -> usize {
+        match counters.iter().position(|it| it.name == name) {
+            Some(idx) => idx,
+            None => {
+                counters.push(Counter {
+                    name,
+                    cur: 0,
+                    max: 0,
+                });
+                counters.len() - 1
+            }
+        }
+    }
+
+    /// RAII guard: the frame is counted until the guard is dropped.
+    pub struct Guard {
+        group: usize,
+        site: usize,
+    }
+
+    pub fn enter(group: &'static str, site: &'static str) -> Guard {
+        COUNTERS.with(|c| {
+            let mut c = c.borrow_mut();
+            let group = index(&mut c.groups, group);
+            let site = index(&mut c.sites, site);
+            c.groups[group].up();
+            c.sites[site].up();
+            c.total.up();
+            Guard { group, site }
+        })
+    }
+
+    impl Drop for Guard {
+        fn drop(&mut self) {
+            COUNTERS.with(|c| {
+                let mut c = c.borrow_mut();
+                c.groups[self.group].cur -= 1;
+                c.sites[self.site].cur -= 1;
+                c.total.cur -= 1;
+            })
+        }
+    }
+
+    /// Forget the high-water marks (live frames stay counted).
+    pub fn reset() {
+        COUNTERS.with(|c| {
+            let mut c = c.borrow_mut();
+            c.total.max = c.total.cur;
+            for it in c.sites.iter_mut() {
+                it.max = it.cur;
+            }
+            for it in c.groups.iter_mut() {
+                it.max = it.cur;
+            }
+        })
+    }
+
+    fn max_in(counters: &[Counter], name: &str) -> usize {
+        counters
+            .iter()
+            .find(|it| it.name == name)
+            .map(|it| it.max)
+            .unwrap_or(0)
+    }
+
+    /// Highest number of live frames of the function `site` since the last reset.
+    pub fn max_of_site(site: &str) -> usize {
+        COUNTERS.with(|c| max_in(&c.borrow().sites, site))
+    }
+
+    /// Highest number of live frames of the functions of `group` since the last reset.
+    pub fn max_of_group(group: &str) -> usize {
+        COUNTERS.with(|c| max_in(&c.borrow().groups, group))
+    }
+
+    /// Highest number of live instrumented frames (all functions) since the last reset.
+    pub fn max_total() -> usize {
+        COUNTERS.with(|c| c.borrow().total.max)
+    }
+
+    pub fn snapshot() -> Counters {
+        COUNTERS.with(|c| c.borrow().clone())
+    }
+}
